@@ -103,19 +103,27 @@ contract(SH + ".__init__", params=PARAM_T, raises=INIT_INVALID, modifies=["*"], 
     note="raises ValueError iff the reference predicate of the statement holds; every other combination returns normally")
 
 # ---- call-time checks of shex_graph / profile_graph -------------------------------------------------------------
-FIELDS.update({"_target_classes_dict": Opt(Int), "_profile": Opt(Int), "_shape_list": Opt(Int)})
-SerT = schema("ShapeSerializer", ["shexer.io.shex.formater.shex_serializer:ShexSerializer",
-                                  "shexer.io.shacl.formater.shacl_serializer:ShaclSerializer"], {})
+SCHEMAS["Shaper"].fields.update({"_target_classes_dict": Opt(Int), "_profile": Opt(Int), "_shape_list": Opt(Int), "_shape_list_threshold": Opt(Real),
+               "_class_shexer": Opt(Int)})
+# C18: the cached list of shapes belongs to one threshold.  thr_of(token) = the threshold the shapes behind `token` were computed for.
+specfun("thr_of", [Int], Real)
+CACHE_INV = "implies(self._shape_list is not None, self._shape_list_threshold is not None and thr_of(some(self._shape_list)) == some(self._shape_list_threshold))"
+SerT = schema("ShapeSerializer", ["ext:AnyShapeSerializer"], {})      # opaque here: ShexSerializer or ShaclSerializer (their own contracts: C18, C11)
 PIPE = dict(assume_only=True, verify=False, modifies=["*"],
             note="pipeline stage abstracted here (exception-freedom is C04's subject, content C01-C19's)")
-contract(SH + "._launch_instance_tracker", params={}, **PIPE)
-contract(SH + "._launch_class_profiler", params={}, **PIPE)
-contract(SH + "._launch_class_shexer", params={"acceptance_threshold": Real}, **PIPE)
-contract(SH + "._generate_uml_diagram", params={"to_uml_path": O}, raises=[("ResourceWarning", "?True")], **PIPE)
+STAGE = dict(assume_only=True, verify=False, note="pipeline stage abstracted here (exception-freedom is C04's subject, content C01-C19's)")
+contract(SH + "._launch_instance_tracker", params={}, modifies=["Shaper._instance_tracker[self]", "Shaper._target_classes_dict[self]"],
+         ensures=["self._target_classes_dict is not None"], **STAGE)
+contract(SH + "._launch_class_profiler", params={}, modifies=["Shaper._class_profiler[self]", "Shaper._profile[self]", "Shaper._class_counts[self]", "Shaper._class_min_iris[self]"],
+         ensures=["self._profile is not None"], **STAGE)
+contract(SH + "._launch_class_shexer", params={"acceptance_threshold": Real}, assume_only=True, verify=False,
+         modifies=["Shaper._class_shexer[self]", "Shaper._shape_list[self]"],
+         ensures=["self._shape_list is not None", "thr_of(some(self._shape_list)) == acceptance_threshold"],
+         note="pipeline stage abstracted: builds the shapes for the threshold it is given (content: C02/C12)")
+contract(SH + "._generate_uml_diagram", params={"to_uml_path": O}, raises=[("ResourceWarning", "?True")], modifies=[], **STAGE)
 contract(SH + "._build_shapes_serializer", params={"target_file": O, "string_return": Bool, "output_format": Str},
-         returns=SerT, **PIPE)
-contract("shexer.io.shex.formater.shex_serializer:ShexSerializer.serialize_shapes", params={}, returns=O, **PIPE)
-contract("shexer.io.shacl.formater.shacl_serializer:ShaclSerializer.serialize_shapes", params={}, returns=O, **PIPE)
+         returns=SerT, modifies=["alloc"], **STAGE)
+contract("ext:AnyShapeSerializer.serialize_shapes", params={}, returns=O, modifies=[], self_type=SerT, **STAGE)
 
 SHEX_INVALID = [
     ("ValueError", "(not string_output) and output_file is None and to_uml_path is None"),
@@ -123,8 +131,10 @@ SHEX_INVALID = [
     ("ValueError", "acceptance_threshold < 0 or acceptance_threshold > 1")]
 contract(SH + ".shex_graph",
     params={"string_output": Bool, "output_file": O, "output_format": Str, "acceptance_threshold": Real, "to_uml_path": O},
-    returns=O, raises=SHEX_INVALID, modifies=["*"], props=["C20", "C04"],
-    note="ValueError iff no sink / unknown format / threshold outside [0,1]; call shapes of the three checks")
+    returns=O, raises=SHEX_INVALID, requires=[CACHE_INV],
+    ensures=[CACHE_INV, "self._shape_list is not None", "thr_of(some(self._shape_list)) == acceptance_threshold"],
+    modifies=["*"], props=["C20", "C04", "C18"],
+    note="ValueError iff no sink / unknown format / threshold outside [0,1]; the shapes that get serialised were computed for THIS call's threshold (cache invariant)")
 contract(SH + ".profile_graph", params={"string_output": Bool, "output_file": O}, returns=O,
     raises=[("ValueError", "(not string_output) and output_file is None")], modifies=["*"], props=["C04"],
     note="call shape of _check_correct_output_params (3 parameters) at this call site")
